@@ -36,7 +36,11 @@ def cpp_source(ty):
     L.append('    { Tensor<T,m,1> r = A(i0, (int)num %% (int)N); vh_line("EC", id, r.data(), m); }'.replace('%%', '%'))
     L.append('    { Tensor<T,n,1> r = A((int)num %% (int)M, i1); vh_line("ER", id, r.data(), n); }'.replace('%%', '%'))
     L.append('    { Tensor<T,m,2> r = A(i0, fseq<1,3>()); vh_line("EF", id, r.data(), m*2); }')
-    L.append('    { Tensor<T,2,n> r = A(fseq<0,3,2>(), i1); vh_line("FE", id, r.data(), 2*n); }' if True else '')
+    L.append('    { Tensor<T,2,n> r = A(fseq<0,3,2>(), i1); vh_line("FE", id, r.data(), 2*n); }')
+    # a compile-time range that does not start at 0, and the const overloads of every mixed form
+    L.append('    { Tensor<T,2,n> r = A(fseq<1,3>(), i1); vh_line("FE1", id, r.data(), 2*n); }')
+    L.append('    { const Tensor<T,M,N>& cA = A; { Tensor<T,m,n> r = cA(i0, i1); vh_line("CE2", id, r.data(), m*n); } { Tensor<T,m,2> r = cA(i0, fseq<1,3>()); vh_line("CEF", id, r.data(), m*2); }')
+    L.append('      { Tensor<T,2,n> r = cA(fseq<1,3>(), i1); vh_line("CFE1", id, r.data(), 2*n); } { Tensor<T,m,1> r = cA(i0, (int)num %% (int)N); vh_line("CEC", id, r.data(), m); } { Tensor<T,n,1> r = cA((int)num %% (int)M, i1); vh_line("CER", id, r.data(), n); } }'.replace('%%', '%'))
     L.append('    return; }')
     L.append('  int op, rhs; in >> op >> rhs; for (size_t k = 0; k < m; ++k) { long v; in >> v; i0.data()[k] = (Int)v; } for (size_t k = 0; k < n; ++k) { long v; in >> v; i1.data()[k] = (Int)v; } FA2<M,N> F;')
     for oi, op in enumerate(OPS):
@@ -146,6 +150,7 @@ def model_stmts(cases, int_div):
             st.append('pn "ER" %d (run_idx_row %d %d %s)' % (c['id'], N, c['num'] % M, nl(c['i1'])))
             st.append('pn "EF" %d (run_idx_it_range %d %s %d ((z 1, z 3), z 1))' % (c['id'], N, nl(c['i0']), N))
             st.append('pn "FE" %d (run_idx_range_it %d %d ((z 0, z 3), z 2) %s)' % (c['id'], N, M, nl(c['i1'])))
+            st.append('pn "FE1" %d (run_idx_range_it %d %d ((z 1, z 3), z 1) %s)' % (c['id'], N, M, nl(c['i1'])))
         elif c['k'] == 'W2':
             M, N = c['shape']; idx = [a * N + b for a in c['i0'] for b in c['i1']]
             st.append('pz "A" %d (run_rv_write %d (run_idx2 %d %s %s) (zl %s) (zl %s))' % (c['id'], OPC[op], N, nl(c['i0']), nl(c['i1']), ml_ints(rhs_vals(33 if c['rhs'] == 3 else c['rhs'], c['m'] * c['n'], idx)), ml_ints([10 + i for i in range(M * N)])))
@@ -209,8 +214,8 @@ def main():
                 continue
             vals = [parse_num(v) for v in p[2:]]
             n_eval += 1; dist[c['k']] = dist.get(c['k'], 0) + 1
-            if tag in ('E', 'EC', 'ER', 'EF', 'FE', 'CE'):
-                exp = mres[('E' if tag == 'CE' else tag, cid)]
+            if tag in ('E', 'EC', 'ER', 'EF', 'FE', 'CE', 'FE1', 'CE2', 'CEF', 'CFE1', 'CEC', 'CER'):
+                exp = mres[({'CE': 'E', 'CE2': 'E', 'CEF': 'EF', 'CFE1': 'FE1', 'CEC': 'EC', 'CER': 'ER'}.get(tag, tag), cid)]
             elif tag == 'X':
                 exp = [3 * v for v in mres[('E', cid)]]
             else:
